@@ -16,12 +16,28 @@ class Tracer:
             return self.local
         return None
 
+    @staticmethod
+    def in_cleanup(frame):
+        """Is the line inside the function's (last) finally block?  An interrupt that lands in the
+        clean-up code itself is a fault of the clean-up, like an error injected into os.remove."""
+        import inspect
+
+        try:
+            lines, first = inspect.getsourcelines(frame.f_code)
+        except (OSError, TypeError):
+            return False
+        fin = None
+        for i, ln in enumerate(lines):
+            if ln.strip().startswith("finally"):
+                fin = first + i
+        return fin is not None and frame.f_lineno > fin
+
     def local(self, frame, event, arg):
         if event == "line":
             self.count += 1
             if self.count == self.k and not self.fired:
                 self.fired = True
-                self.ctl.out("sim", "interrupt-line %d %s:%d\n" % (self.k, frame.f_code.co_name, frame.f_lineno))
+                self.ctl.out("sim", "interrupt-line %d %s:%d cleanup=%d\n" % (self.k, frame.f_code.co_name, frame.f_lineno, int(self.in_cleanup(frame))))
                 raise KeyboardInterrupt()
         return self.local
 
